@@ -7,11 +7,14 @@ From Coq Require Import List Arith Bool.
 Import ListNotations.
 Require Import MV.Cache.Machine MV.Cache.KeySrc MV.Generated.C10_gen MV.Cache.MachineProofs.
 
+Require Import MV.Cache.MachineCheck.
 Theorem keyerror_under_alias_gc_refuted :
   exists ls s, run transform_function_prog init ls = Some s /\ s_err s <> [].
 Proof.
-  exists [LStart 0 (0,0) 0; LStep 0; LStep 0; LStep 0; LStep 0; LStep 0; LStep 0; LStep 0; LStep 0; LStep 0;
-          LStart 1 (0,0) 1; LStep 1; LGc 0; LStep 1].
-  eexists. split; [vm_compute; reflexivity|]. vm_compute. discriminate.
+  exists (alias_witness transform_function_prog).
+  destruct (run transform_function_prog init (alias_witness transform_function_prog)) as [s|] eqn:E;
+    [|vm_compute in E; discriminate].
+  exists s. split; [reflexivity|].
+  vm_compute in E. inversion E. discriminate.
 Qed.
 Print Assumptions keyerror_under_alias_gc_refuted.
